@@ -4,6 +4,7 @@ CONSTANTS
   Runtimes = {"threaded", "tokio"}
   MaxReq = 8
   Kinds = {"close", "keep", "ws"}
+  SigTwice = TRUE
   Dev = {}
 INIT TInit
 NEXT TNext
